@@ -543,7 +543,7 @@ def rule_H(ctx):
     f0 = ctx.prog.func(TRACK + '.createAnalyticalFeature')
     fn = absint.funcs(ctx, 'tracklib.core.track')
     T = absint.classref(ctx, TRACK, fn)
-    NAMES = ['a', 'b', 'c']
+    NAMES = ['a', 'X', 'c']          # ('X': a stored feature whose name is a virtual feature's in another case is a feature like any other)
 
     class Tok(orders.PyStub):
         """an opaque value"""
@@ -673,6 +673,10 @@ def rule_H(ctx):
         vals = {}
         for nm in names:
             vals[nm] = [t.call('getObsAnalyticalFeature', nm, k) for k in range(NOBS)]
+            col = t.call('getAnalyticalFeature', nm)           # the whole column, and the bracket form, read the same values
+            br = t.call('__getitem__', nm)
+            if col != vals[nm] or br != vals[nm]:
+                vals[nm] = ('column read differs from the per-observation reads', repr(col), repr(br), repr(vals[nm]))
         widths = [len(o.fields['features']) for o in t.fields['_Track__POINTS']]
         frame = [(o.fields['position'], o.fields['timestamp']) for o in t.fields['_Track__POINTS']]
         return names, vals, widths, cols, frame
@@ -691,6 +695,8 @@ def rule_H(ctx):
           ops.append(('remove %s' % nm, lambda t, m, nm=nm: (t.call('removeAnalyticalFeature', nm), m.pop(nm)) if nm in m else None))
           ops.append(('update %s <- list' % nm, lambda t, m, nm=nm: (t.call('updateAnalyticalFeature', nm, new(nm)), m.__setitem__(nm, new(nm))) if nm in m else None))
           ops.append(('update %s <- scalar' % nm, lambda t, m, nm=nm: (t.call('updateAnalyticalFeature', nm, Tok('scalar', nm)), m.__setitem__(nm, [Tok('scalar', nm)] * NOBS)) if nm in m else None))
+          ops.append(('update %s <- scalar text' % nm, lambda t, m, nm=nm: (t.call('updateAnalyticalFeature', nm, 'walk'), m.__setitem__(nm, ['walk'] * NOBS)) if nm in m else None))
+          ops.append(('track[%s] = scalar text' % nm, lambda t, m, nm=nm: (t.call('__setitem__', nm, 'bus'), m.__setitem__(nm, ['bus'] * NOBS))))
           ops.append(('setObs %s[last]' % nm, lambda t, m, nm=nm: (t.call('setObsAnalyticalFeature', nm, LAST, Tok('one', nm)), m[nm].__setitem__(LAST, Tok('one', nm))) if nm in m else None))
           ops.append(('track[%s] = list' % nm, lambda t, m, nm=nm: (t.call('__setitem__', nm, new(nm)), m.__setitem__(nm, new(nm)))))
           ops.append(('track[%s, 0] = v' % nm, lambda t, m, nm=nm: (t.call('__setitem__', (nm, 0), Tok('two', nm)), m[nm].__setitem__(0, Tok('two', nm))) if nm in m else None))
@@ -998,6 +1004,9 @@ def rule_J(ctx):
              ('q=a*(b+c)+AVG{a}', 'q', lambda: [x * (y + z) + sum(VAL['a']) / N for x, y, z in zip(VAL['a'], VAL['b'], VAL['c'])]),
              ('q=(a+b)*(a-b)+SUM{c}', 'q', lambda: [(x + y) * (x - y) + sum(VAL['c']) for x, y in zip(VAL['a'], VAL['b'])]),
              ('b=AVG{a}*SUM{b}-MAX{c}', 'b', lambda: [sum(VAL['a']) / N * sum(VAL['b']) - max(VAL['c'])] * N),
+             # a number-with-number sub-expression beside feature operands (it consumes a temporary number without creating a temporary feature)
+             ('q=b*(2+3)', 'q', lambda: [5 * y for y in VAL['b']]), ('a=(10/4)+c', 'a', lambda: [2.5 + z for z in VAL['c']]), ('c*(1+1)-b', None, None),
+             ('q=(1+2)*a+(4-1)*b', 'q', lambda: [3 * x + 3 * y for x, y in zip(VAL['a'], VAL['b'])]),
              # long expressions: more than ten, and more than a hundred, evaluator temporaries (#0 ... #11, #0 ... #101)
              ('q=' + '+'.join(['a', 'b'] * 6 + ['a']), 'q', lambda: [7 * x + 6 * y for x, y in zip(VAL['a'], VAL['b'])]),
              ('+'.join(['a', 'b'] * 6 + ['a']), None, None),
